@@ -521,7 +521,8 @@ impl OpenFile {
     ) -> RusticResult<Bytes> {
         let (mut i, mut offset) = self.startpoints.compute_start(offset);
 
-        let mut result = BytesMut::with_capacity(length);
+        // `length` may be far beyond the end of the file: do not allocate it up front
+        let mut result = BytesMut::new();
 
         // The case of empty node.content is also correctly handled here
         while length > 0 && i < self.content.len() {
